@@ -354,6 +354,44 @@ def ir_bookkeeping(R):
         ok = isinstance(ci.Type, ir.IntegerType) and not ci.Type.Unsigned and isinstance(cu.Type, ir.IntegerType) and cu.Type.Unsigned and ci is not cu
         R.check(f"IR.constant.typed[int 7 vs uint 7,{order}]", L + "::Function.CreateConstant", ok,
                 detail=f"CreateConstant(int, 7) has type {ci.Type}, CreateConstant(uint, 7) has type {cu.Type} ({'one shared object' if ci is cu else 'two objects'})")
+    # every constant CreateConstant has ever handed out stays a constant OF THE FUNCTION (instructions keep it as an operand), whatever is
+    # requested afterwards -- in particular for requests that compare equal in Python (1 == 1.0 == True, 0 == 0.0 == -0.0; the lowering of
+    # `x++` on a float asks for (float, 1) with an int 1, a float literal for (float, 1.0)): all ordered pairs of requests, three types
+    reqs = [(tn, t, v) for tn, t in (("int", I), ("uint", ir.IntegerType(unsigned=True)), ("float", F)) for v in (0, 1, 0.0, 1.0, 2, 2.0)]
+    badpairs = []
+    for (tn1, t1, v1) in reqs:
+        for (tn2, t2, v2) in reqs:
+            f3, _bb3 = fresh_function()
+            ca = f3.CreateConstant(t1, v1)
+            cb = f3.CreateConstant(t2, v2)
+            ca2 = f3.CreateConstant(t1, v1)
+            listed = list(f3.Constants)
+            ok = (any(c is ca for c in listed) and any(c is cb for c in listed) and any(c is ca2 for c in listed)
+                  and str(ca.Type) == str(t1) and str(cb.Type) == str(t2) and str(ca2.Type) == str(t1) and ca.Value == v1 and cb.Value == v2 and ca2.Value == v1
+                  and len(set(c.Reference for c in listed)) == len(listed))
+            if not ok:
+                badpairs.append(f"({tn1}, {v1!r}) then ({tn2}, {v2!r})")
+    R.check("IR.constant.stays-listed", L + "::Function.CreateConstant", not badpairs,
+            detail=f"after these request sequences a constant that was handed out is no longer in Function.Constants, or has another type / value, or shares a reference: {badpairs[:6]}"
+                   f" ({len(badpairs)} of {len(reqs) ** 2} ordered pairs)",
+            replay=script("""
+                import io, contextlib
+                from nsl import Compiler, LinearIR, VM
+                bad = []
+                for src in ('export function f(float a) -> float { float x = a; x++; return (x + 1.0); }',
+                            'export function f(float a) -> float { float x = (a + 1.0); x++; return x; }',
+                            'export function f(int a) -> float { float x = 1.0; int y = (a + 1); x--; return (x + y); }'):
+                    for opt in (False, True):
+                        with contextlib.redirect_stdout(io.StringIO()):
+                            r = Compiler.Compiler().Compile(src, {'optimize': opt})
+                        lk = LinearIR.Linker(); lk.AddModule(r.IRModule)
+                        try:
+                            VM.VirtualMachine(lk.Link()).Invoke('f', a=2)
+                        except KeyError as e:
+                            bad.append((src, opt, 'KeyError ' + str(e)))
+                print(bad[:3])
+                if bad: print('REPLAY-CONFIRMED')
+                """))
     R.check("IR.constant.listed", L + "::Function.Constants", sorted(map(id, f.Constants)) == sorted(map(id, {id(c): c for c in (c1, c2, c3, c0, c0f)}.values())), detail="Constants does not list every created constant once")
     # WithVariable
     st = val(bb)
@@ -533,7 +571,7 @@ def _pending(bb):
     return dict(getattr(bb, "_BasicBlock__replaceUses")), dict(getattr(bb, "_BasicBlock__replacements"))
 
 
-@family("IR.opt.las", props=["C02", "C14", "C15", "C12"], functions=[LAS + ".v_VariableAccessInstruction", L + "::BasicBlock.GetPreviousInstruction"],
+@family("IR.opt.las", props=["C02", "C14", "C15", "C12", "C04", "C01"], functions=[LAS + ".v_VariableAccessInstruction", L + "::BasicBlock.GetPreviousInstruction"],
         assumptions=["instruction sequences enumerated: [store?] [0-2 intervening instructions of every kind] load, in one or two blocks; names are unique across scopes (C12), so a same-name store in another scope is left unconstrained"])
 def opt_las(R):
     """Soundness of load-after-store forwarding: whenever the visitor forwards a load L of variable x to a value v and removes L, there is a
